@@ -9,7 +9,7 @@ from common import hexs
 
 META = {
     "property": "C08",
-    "proof_modules": ["PyodaProofs.C08"],
+    "proof_modules": ["PyodaProofs.C08", "PyodaProofs.C08Create"],
     "drivers": ["drv_text"],
     "theorems": [
         "Pyoda.C08.parseDigits_total",
@@ -27,13 +27,23 @@ META = {
         "Pyoda.C08.rollover_at_max_is_failure",
         "Pyoda.C08.year_below_minimum_is_failure",
         "Pyoda.C08.trailing_nul_is_failure",
+        "Pyoda.C08.repeatCount_onlyInvalid",
+        "Pyoda.C08.quotedString_onlyInvalid",
+        "Pyoda.C08.embeddedPattern_onlyInvalid",
+        "Pyoda.C08.handleChar_onlyInvalid",
+        "Pyoda.C08.compileLoop_onlyInvalid",
+        "Pyoda.C08.compileTime_total",
+        "Pyoda.C08.compileDate_total",
+        "Pyoda.C08.compileOffset_total",
+        "Pyoda.C08.compile_total",
+        "Pyoda.C08.invariantCulture_offsetTextsCustom",
     ],
     "trusted_base": [
         "str indexing inside _ValueCursor is guarded by the cursor's own length checks (modelled as list operations)",
     ],
     "partial": [
         "parse_total / success_valid are proved for the modelled parsers only (numeric primitives; ISO date, ISO times, ISO date-times incl. 24:00 roll-over, offset g/G), which model the REPAIRED behaviour (year range check in the ISO fast path, Offset range check, OverflowError of plus_days mapped to a failure, end-of-text by index); on the unrepaired tree the correspondence suite text.iso.parse and the direct oracles report the four defects",
-        "pattern creation (create_total) is not modelled: the malformed-pattern stream is a direct oracle only",
+        "pattern creation: compile_total is proved for LocalTime, LocalDate (ISO template) and Offset patterns (custom texts, standard letters, Z prefix, composites), tied to the real builders by suite text.pat.compile (outcome class, used-field mask, number of actions); LocalDateTime/Instant (embedded patterns), Duration and AnnualDate creation and the sample formatting done at construction are covered by the malformed-pattern oracle only",
         "step language beyond the built-in ISO patterns, ICU-derived culture data, non-ASCII case folding: direct oracles only; exceptions originating in ICU or in culture construction are outside the model",
     ],
     "rule": "distinct = distinct (pattern, culture, text) triple / pattern text; non-trivial = the pattern exists and parse was invoked (creation stream: creation was attempted)",
@@ -421,6 +431,9 @@ def run(ctx):
     c07.run_num_correspondence(ctx)
     c07.run_iso_correspondence(ctx, "c08")
     run_iso_parse_hostile(ctx)
+    import textpat
+    textpat.run_compile_correspondence(ctx)
+    textpat.run_engine_correspondence(ctx, hostile=True)
 
 
 def run_iso_parse_hostile(ctx):
